@@ -418,6 +418,10 @@ class _StickySink:
         """Register a session via the callback; stash the minted token for the response."""
         token = self._open_callback(state, ttl)
         self.mint_token = token
+        # An open after a close in the same request supersedes it: emitting
+        # VGI-Session-Close next to the freshly minted token would make the
+        # client drop the token of a session the server keeps live.
+        self.closed = False
         # _open_callback set _current_session_context — capture the new id
         # from there. We could equally have _open_callback return it, but
         # the contextvar is the single source of truth right after open.
